@@ -190,8 +190,11 @@ Definition obs_verdict (v : verdict) : obs :=
   end.
 Definition obs_log (l : list logev) : obs :=
   OL (map (fun e => match e with LOk n => OL [OS "ok"; on n] | LRaise n => OL [OS "raise"; on n] | LRefuse n => OL [OS "refuse"; on n] end) l).
+Definition started (l : list logev) : list nat :=
+  flat_map (fun e => match e with LOk n | LRaise n => [n] | LRefuse _ => [] end) l.
 Definition obs_run (g : flow) (fuel : nat) (starting : list nat) : obs :=
   match run g fuel starting with
-  | (Some s, v) => OL [obs_verdict v; obs_log (log s); OL (map obs_slot (outv s)); OL (map ob (failedv s)); ob (parent_failed v)]
+  | (Some s, v) => OL [obs_verdict v; OL (map on (started (log s))); OL (map obs_slot (outv s)); OL (map ob (failedv s));
+                       ob (parent_failed v)]
   | (None, v) => OL [obs_verdict v]
   end.
